@@ -385,6 +385,14 @@ package core
 //@   ensures [C17] ret == nil ==> core.catalog.Info.Title == d.namedParameters["Title"]
 //@   ensures [C02] ret != nil ==> ret.file == d.keywordCoords.file && ret.index == d.keywordCoords.begin
 
+//@ func (core.JApiCore).addBaseUrl
+//@   tag C11 C17 C01
+//@   requires DirWF(d) && d.Parent != nil && core.catalog != nil && core.catalog.Servers != nil && RepInvServers(core.catalog.Servers) && core.catalog.Servers.mx == 0
+//@   requires forall k string :: has(core.catalog.Servers.data, k) ==> core.catalog.Servers.data[k] != nil
+//@   ensures [C11] !has(d.namedParameters, "Path") || d.namedParameters["Path"] == "" ==> ret != nil && unchanged()
+//@   ensures [C17] ret == nil && has(d.Parent.namedParameters, "Name") ==> has(core.catalog.Servers.data, d.Parent.namedParameters["Name"]) && core.catalog.Servers.data[d.Parent.namedParameters["Name"]].BaseUrl == d.namedParameters["Path"]
+//@   ensures [C02] ret != nil ==> ret.file == d.keywordCoords.file && ret.index == d.keywordCoords.begin
+
 //@ func (core.JApiCore).addVersion
 //@   tag C11 C01
 //@   requires DirWF(d) && core.catalog != nil && core.catalog.Info != nil
